@@ -28,8 +28,8 @@ from extractors import t17
 
 sys.path.insert(0, vlib.REPO)
 
-HEADER = """From Coq Require Import List String Bool.
-From C17 Require Import Model ProofsSort ProofsOptions ProofsFlags.
+HEADER = """From Coq Require Import List String Ascii Bool.
+From C17 Require Import Model ProofsSort ProofsOptions ProofsFlags ProofsValues.
 From Gen Require Import Flags.
 Import ListNotations.
 Open Scope string_scope.
@@ -48,6 +48,16 @@ Definition runspec (pmo : list (key * changes)) : list nat :=
                       b2n (fst (spec_code nocode nocode pmo None m "c")); b2n (snd (spec_code nocode nocode pmo None m "c"))]) MODS.
 Definition show_cfg (r : cfg_res) : string :=
   match r with CSet d inv => (if inv then "!" else "=") ++ d | CNotBool => "notbool" | CUnrecognized => "unrec" | CStrict => "strict" end.
+Fixpoint vis (s : string) : string :=
+  match s with EmptyString => EmptyString | String a r => String (if is_ws a then "_"%char else a) (vis r) end.
+Definition bar (l : list string) : string := vis (concat "" (map (fun x => x ++ "|") l)).
+Definition show_pv (r : pv_res) : list nat := match r with PVOk a b => [1; a; b] | PVTooOld => [2] | PVError => [3] end.
+Definition show_inl (r : inline_res) : string :=
+  match r with IAccept d inv => (if inv then "!" else "=") ++ d | IRejectVersion => "version" | IRejectStrict => "strict"
+             | IRejectReport => "report" | IUnrecognized => "unrec" | INotBool => "notbool" end.
+Definition show_dir (s : string) : string :=
+  let pe := split_directive s in
+  (if snd pe then "E" else "-") ++ bar (map (fun e => fst (comment_entry e) ++ "#" ++ snd (comment_entry e)) (fst pe)).
 Definition show_sp (s : string * (string * bool)) : string := fst s ++ " " ++ fst (snd s) ++ " " ++ (if snd (snd s) then "1" else "0").
 """
 
@@ -509,6 +519,221 @@ def sources_stage(ctx: vlib.Ctx, live: list[tuple[str, str, bool]], tmp: str) ->
     ctx.sample({"flag": spell[0][0], "dest": spell[0][1], "value": spell[0][2], "config": real_cfg(spell[0][0][2:].replace("-", "_"))})
 
 
+
+# ------------------------------------------------------------------ C5: value-typed options, strict, inline comments
+
+def coq_lit(x: str) -> str:
+    return '"' + x.replace('"', '""') + '"'
+
+
+def all_strings(alphabet: str, maxlen: int) -> list[str]:
+    return ["".join(t) for n in range(maxlen + 1) for t in itertools.product(alphabet, repeat=n)]
+
+
+def values_stage(ctx: vlib.Ctx, tmp: str) -> None:
+    from mypy import config_parser as CP
+    from mypy import main as M
+    from mypy.options import Options, PER_MODULE_OPTIONS
+    hdr = HEADER.replace("%MODS%", "[]")
+    bar = lambda l: "".join(x + "|" for x in l).replace(" ", "_")   # noqa: E731  (the output normaliser collapses runs of blanks)
+    # (a) conversion functions, exhaustively on short strings
+    strs_l = all_strings("AB,: ", ctx.n(4, 5))
+    lit = "[" + "; ".join(coq_lit(x) for x in strs_l) + "]"
+    convs = [
+        ("ini_list", "fun s => bar (ini_list s)", lambda x: bar(CP.ini_config_types["always_true"](x))),
+        ("try_split(,)", "fun s => bar (try_split_str is_comma s)", lambda x: bar(CP.try_split(x))),
+        ("try_split([,:])", "fun s => bar (try_split_str is_comma_colon s)", lambda x: bar(CP.try_split(x, "[,:]"))),
+        ("ini mypy_path", "fun s => bar (map strip (split_by is_comma_colon s))", lambda x: bar(CP.ini_config_types["mypy_path"](x))),
+        ("str_or_array_as_list", "fun s => bar (str_or_array_str s)", lambda x: bar(CP.str_or_array_as_list(x))),
+        ("ini exclude", "fun s => bar (ini_exclude s)", lambda x: bar(CP.ini_config_types["exclude"](x))),
+        ("try_split(list)", "fun s => bar (try_split_list (split_by is_comma_colon s))", lambda x: bar(CP.try_split(re.split("[,:]", x)))),
+        ("str_or_array_as_list(list)", "fun s => bar (str_or_array_list (split_by is_comma_colon s))", lambda x: bar(CP.str_or_array_as_list(re.split("[,:]", x)))),
+    ]
+    vers = sorted(set(all_strings("2379.0a", 4)) | {"3.10", "3.12", "3.100", "3.09", "3.010", "2.70", "3.9.1", "33.1", "3.1 ", " 3.12"})
+    vlit = "[" + "; ".join(coq_lit(x) for x in vers) + "]"
+    dirs = all_strings('a-,=" ', ctx.n(4, 5))
+    dlit = "[" + "; ".join(coq_lit(x) for x in dirs) + "]"
+    exprs = [f"map ({f}) {lit}" for _, f, _ in convs] + [f"map (fun s => show_pv (parse_version python3_min_minor s)) {vlit}", f"map show_dir {dlit}",
+                                                         "map (fun dv : string * bool => fst dv ++ (if snd dv then \"=1\" else \"=0\")) the_strict_set", "inline_accepted_globals"]
+    res = ctx.eval_cases("values", hdr, exprs, per_file=1)
+    if res is None:
+        return
+    n = 0
+    for (name, _, real), r in zip(convs, res):
+        model = strs(r)
+        if len(model) != len(strs_l):
+            ctx.broke("C", f"conversion {name}", f"parsed {len(model)} results for {len(strs_l)} inputs")
+            continue
+        for x, m in zip(strs_l, model):
+            n += 1
+            if real(x) != m:
+                ctx.broke("C", f"conversion {name}", f"input {x!r}: model {m!r} impl {real(x)!r}", {"input": x})
+                break
+    # parse_version
+    pv = re.findall(r"\[([\d; ]*)\]", res[len(convs)][1:-1])
+    for x, m in zip(vers, pv):
+        n += 1
+        try:
+            a, b = CP.parse_version(x)
+            real = [1, a, b]
+        except CP.VersionTypeError:
+            real = [2]
+        except Exception:  # noqa
+            real = [3]
+        if nums(m) != real:
+            ctx.broke("C", "parse_version", f"input {x!r}: model {nums(m)} impl {real}", {"input": x})
+            break
+    if len(pv) != len(vers):
+        ctx.broke("C", "parse_version", f"parsed {len(pv)} results for {len(vers)} inputs")
+    # split_directive + mypy_comments_to_config_map
+    o = Options()
+    md = strs(res[len(convs) + 1])
+    if len(md) != len(dirs):
+        ctx.broke("C", "split_directive", f"parsed {len(md)} results for {len(dirs)} inputs")
+    for x, m in zip(dirs, md):
+        n += 1
+        m = m.replace('""', '"')
+        opts, errs = CP.mypy_comments_to_config_map(x, o)
+        model_pairs: dict[str, str] = {}
+        for item in m[1:].split("|")[:-1]:
+            k, _, v = item.partition("#")
+            model_pairs[k] = v
+        opts = {k.replace(" ", "_"): v.replace(" ", "_") for k, v in opts.items()}
+        if (m[0] == "E") != bool(errs) or model_pairs != opts:
+            ctx.broke("C", "split_directive/mypy_comments_to_config_map", f"line {x!r}: model {m!r} impl {opts} {errs}", {"line": x})
+            break
+    ctx.cov["conversion_inputs"] = n
+    ctx.add("evaluations", n)
+    ctx.add("traces_validated_against_impl", n)
+    # (b) the strict set
+    _, _, strict_assign = M.define_options()
+    live_strict = [f"{d}={int(v)}" for d, v in strict_assign]
+    if strs(res[len(convs) + 2]) != live_strict:
+        ctx.broke("C", "the_strict_set vs strict_flag_assignments", f"model {strs(res[len(convs) + 2])} impl {live_strict}")
+    ctx.cov["strict_set"] = live_strict
+    ctx.cov["inline_accepted_global_options"] = strs(res[len(convs) + 3])
+
+    # (c) value-typed options through process_options: CLI vs mypy.ini vs setup.cfg vs pyproject.toml
+    saved = os.environ.pop("MYPY_CACHE_DIR", None)
+    VAL: list[tuple[str, list[str], dict[str, Any] | None, list[dict[str, Any]]]] = [
+        # (name, CLI args, ini global (None = no ini form), toml globals (several spellings))
+        ("python_version", ["--python-version", "3.11"], {"python_version": "3.11"}, [{"python_version": "3.11"}]),
+        ("platform", ["--platform", "win32"], {"platform": "win32"}, [{"platform": "win32"}]),
+        ("always_true", ["--always-true", "A", "--always-true", "B"], {"always_true": "A, B"}, [{"always_true": ["A", "B"]}, {"always_true": "A,B"}]),
+        ("always_false", ["--always-false", "A"], {"always_false": "A"}, [{"always_false": ["A"]}, {"always_false": "A"}]),
+        ("disable_error_code", ["--disable-error-code", "misc", "--disable-error-code", "attr-defined"], {"disable_error_code": "misc,attr-defined"},
+         [{"disable_error_code": ["misc", "attr-defined"]}, {"disable_error_code": "misc, attr-defined"}]),
+        ("enable_error_code", ["--enable-error-code", "truthy-bool"], {"enable_error_code": "truthy-bool"}, [{"enable_error_code": ["truthy-bool"]}]),
+        ("exclude", ["--exclude", "foo"], {"exclude": "foo"}, [{"exclude": "foo"}, {"exclude": ["foo"]}]),
+        ("exclude2", ["--exclude", "foo", "--exclude", "bar"], None, [{"exclude": ["foo", "bar"]}]),
+        ("follow_imports", ["--follow-imports", "skip"], {"follow_imports": "skip"}, [{"follow_imports": "skip"}]),
+        ("cache_dir", ["--cache-dir", "cdir"], {"cache_dir": "cdir"}, [{"cache_dir": "cdir"}]),
+        ("custom_typing_module", ["--custom-typing-module", "mytyping"], {"custom_typing_module": "mytyping"}, [{"custom_typing_module": "mytyping"}]),
+        ("junit_xml", ["--junit-xml", "j.xml"], {"junit_xml": "j.xml"}, [{"junit_xml": "j.xml"}]),
+        ("junit_format", ["--junit-format", "per_file"], {"junit_format": "per_file"}, [{"junit_format": "per_file"}]),
+        ("enable_incomplete_feature", ["--enable-incomplete-feature", "PreciseTupleTypes"], {"enable_incomplete_feature": "PreciseTupleTypes"},
+         [{"enable_incomplete_feature": ["PreciseTupleTypes"]}]),
+        ("untyped_calls_exclude", ["--untyped-calls-exclude", "a.b", "--untyped-calls-exclude", "c"], {"untyped_calls_exclude": "a.b, c"},
+         [{"untyped_calls_exclude": ["a.b", "c"]}]),
+        ("strict", ["--strict"], {"strict": True}, [{"strict": True}]),
+        ("strict+explicit", ["--strict", "--allow-untyped-defs"], {"strict": True, "allow_untyped_defs": True}, [{"allow_untyped_defs": True, "strict": True}]),
+        ("mypy_path", [], {"mypy_path": "a:b, c"}, [{"mypy_path": ["a", "b", "c"]}, {"mypy_path": "a:b, c"}]),
+        ("plugins-none", [], {"warn_unused_configs": True}, [{"warn_unused_configs": True}]),
+    ]
+    runs = 0
+    try:
+        for name, cli, ini, tomls in VAL:
+            results: list[tuple[str, dict[str, Any] | None, str]] = []
+            if cli:
+                results.append(("cli",) + run_process_options(["--config-file="] + cli, tmp))
+            if ini is not None:
+                for kind in ("mypy.ini", "setup.cfg"):
+                    d = tempfile.mkdtemp(dir=tmp)
+                    results.append((kind,) + run_process_options(["--config-file", write_cfg(d, kind, ini)], tmp))
+            for k, t in enumerate(tomls):
+                d = tempfile.mkdtemp(dir=tmp)
+                results.append((f"pyproject.toml#{k}",) + run_process_options(["--config-file", write_cfg(d, "pyproject.toml", t)], tmp))
+            runs += len(results)
+            ref_label, ref, msg = results[0]
+            if ref is None:
+                ctx.broke("C", "process_options (values)", f"{name} via {ref_label} fails: {msg[-200:]}")
+                continue
+            if name not in ("plugins-none",) and ref == run_process_options(["--config-file="], tmp)[0]:
+                ctx.broke("C", "process_options (values)", f"{name} via {ref_label} has no effect on Options")
+            for label, got, msg in results[1:]:
+                if got is None:
+                    ctx.violation(f"value-source:{name}:{label}", f"{name}: accepted via {ref_label} but {label} fails: {msg[-300:]}",
+                                  {"kind": "value_source", "option": name, "source": label})
+                elif got != ref:
+                    diff = {k: [repr(ref.get(k)), repr(got.get(k))] for k in set(ref) | set(got) if ref.get(k) != got.get(k)}
+                    ctx.violation(f"value-source:{name}:{label.split('#')[0]}",
+                                  f"{name}: {ref_label} and {label} give different Options: {diff}",
+                                  {"kind": "value_source", "option": name, "source": label, "reference": ref_label, "diff": diff})
+        # strict precedence (model = Properties.strict_precedence): explicit [mypy] key beats strict = True of the same
+        # section whatever the order; --strict beats an explicit [mypy] key; strict = True of a per-module section sets GLOBAL flags
+        d = tempfile.mkdtemp(dir=tmp)
+        a, _ = run_process_options(["--config-file", write_cfg(d, "mypy.ini", {"disallow_untyped_defs": False, "strict": True})], tmp)
+        b, _ = run_process_options(["--config-file", write_cfg(d, "setup.cfg", {"strict": True, "disallow_untyped_defs": False})], tmp)
+        c, _ = run_process_options(["--config-file", write_cfg(d, "pyproject.toml", {"disallow_untyped_defs": False}), "--strict"], tmp)
+        e, _ = run_process_options(["--config-file", write_cfg(d, "mypy.ini", {"warn_return_any": False}, [("foo.*", {"strict": True})])], tmp)
+        runs += 4
+        obs = [a and a["disallow_untyped_defs"], b and b["disallow_untyped_defs"], c and c["disallow_untyped_defs"], e and e["warn_return_any"], e and e["disallow_untyped_defs"]]
+        if obs != [False, False, True, True, True]:
+            ctx.broke("C", "strict precedence vs global_get_strict", f"observed {obs}, model [False, False, True, True, True]")
+        ctx.cov["per_module_strict_sets_global_flags"] = bool(e and e["disallow_untyped_defs"])
+    finally:
+        if saved is not None:
+            os.environ["MYPY_CACHE_DIR"] = saved
+    ctx.add("evaluations", runs)
+    ctx.add("traces_validated_against_impl", runs)
+    ctx.cov["value_option_runs"] = runs
+    ctx.cov["value_options"] = [v[0] for v in VAL]
+
+    # (d) inline comments: acceptance table vs parse_mypy_comments
+    keys = sorted({k for k in vars(o)} | {"no_" + k for k, v in vars(o).items() if isinstance(v, bool)}
+                  | {k[3:] for k in vars(o) if k.startswith("disallow_")} | {"python_version", "strict", "no_strict", "x_y", "bogus", "linecount_report"})
+    keys = [k for k in keys if not k.startswith("_") and k.lower() == k]
+    res2 = ctx.eval_cases("inline", hdr, ["map (fun k => show_inl (inl k)) [" + "; ".join(coq_lit(k) for k in keys) + "]"])
+    if res2 is not None:
+        model = strs(res2[0])
+        bad = 0
+        accepted_global = []
+        for k, m in zip(keys, model):
+            ch, errs = CP.parse_mypy_comments([(1, k.replace("_", "-"))], o)
+            ch = {a: b for a, b in ch.items() if a not in ("enable_error_code", "disable_error_code")}
+            text = " ".join(e for _, e in errs)
+            if "python_version not supported" in text:
+                r = "version"
+            elif 'Setting "strict" not supported' in text:
+                r = "strict"
+            elif len(ch) == 1 and list(ch.values())[0] is True:
+                r = "=" + list(ch)[0]
+            elif len(ch) == 1 and list(ch.values())[0] is False:
+                r = "!" + list(ch)[0]
+            else:
+                r = "rejected"
+            if r.startswith(("=", "!")) and r[1:] not in PER_MODULE_OPTIONS:
+                accepted_global.append(k)
+            mm = m if m in ("version", "strict") or m.startswith(("=", "!")) else "rejected"
+            if r != mm:
+                bad += 1
+                if bad <= 5:
+                    ctx.broke("C", "inline_norm vs parse_mypy_comments", f"key {k}: model {m} impl {r} ({text[:80]})", {"key": k})
+        ctx.add("evaluations", len(keys))
+        ctx.add("traces_validated_against_impl", len(keys))
+        ctx.cov["inline_keys_checked"] = len(keys)
+        ctx.cov["inline_boolean_keys_accepted_though_not_per_module"] = len(accepted_global)
+    # an inline comment must never make the parser raise (config files report the same mistake as an error message)
+    for line in ["ignore-errors, Ignore-Errors", "ignore-errors, IGNORE_ERRORS=False"]:
+        try:
+            CP.parse_mypy_comments([(1, line)], o)
+        except Exception as ex:  # noqa
+            ctx.violation("inline-duplicate-option-differing-in-case-crashes",
+                          f"`# mypy: {line}` makes parse_mypy_comments raise {type(ex).__name__} (mypy reports INTERNAL ERROR); the same two keys in a "
+                          f"mypy.ini section are reported as a configuration error: {ex}",
+                          {"kind": "inline_crash", "line": line, "exception": repr(ex)})
+            break
+
 # ------------------------------------------------------------------ S: diagnostics on witness programs
 
 # option -> (config key, value, CLI args, inline comment body, witness source)
@@ -663,9 +888,10 @@ def diagnostics_stage(ctx: vlib.Ctx, tmp: str) -> None:
             job(opt, f"global:{kind}", (kind, {**gextra, key: val}, []), [])
             if not ctx.quick or kind == CFG_KINDS[len(opt) % 3]:
                 job(opt, f"section:{kind}", (kind, gextra, [("pkg.sub.w", {key: val})]), [])
-        job(opt, "section:a.*", ("mypy.ini", gextra, [("pkg.*", {key: val})]), [])
-        job(opt, "section:*.b", ("mypy.ini", gextra, [("*.w", {key: val})]), [])
-        job(opt, "section:a.*.b", ("pyproject.toml", gextra, [("pkg.*.w", {key: val})]), [])
+        pats = [("section:a.*", "mypy.ini", "pkg.*"), ("section:*.b", "mypy.ini", "*.w"), ("section:a.*.b", "pyproject.toml", "pkg.*.w")]
+        for n_p, (lab, kind, pat) in enumerate(pats):
+            if not ctx.quick or n_p == len(opt) % 3:
+                job(opt, lab, (kind, gextra, [(pat, {key: val})]), [])
         job(opt, "inline", None, extra, inline=inline)
     # precedence between conflicting sources (documented order), both polarities
     prec_opts = ["disallow_untyped_defs", "ignore_errors"] if ctx.quick else ["disallow_untyped_defs", "ignore_errors", "warn_no_return", "strict_optional", "check_untyped_defs"]
@@ -684,6 +910,8 @@ def diagnostics_stage(ctx: vlib.Ctx, tmp: str) -> None:
             job(opt, f"prec:{tag}:structured-specific>general", ("setup.cfg", {}, [("pkg.sub.*", {key: hi}), ("pkg.*", {key: lo})]), [])
             job(opt, f"prec:{tag}:structured>cli", ("mypy.ini", {}, [("pkg.*", {key: hi})]), (cli if lo == val else []) if cli else [])
             job(opt, f"prec:{tag}:section>global", ("pyproject.toml", {key: lo}, [("pkg.sub.w", {key: hi})]), [])
+            if cli:
+                job(opt, f"prec:{tag}:inline>cli+global", ("mypy.ini", {key: lo}, []), (cli if lo == val else []), inline=inl(hi))
             if cli:
                 inv_cli = ["--" + (cli[0][5:] if cli[0].startswith("--no-") else
                                    ("dis" + cli[0][2:] if cli[0].startswith("--allow-") else
@@ -748,6 +976,13 @@ def findings_stage(ctx: vlib.Ctx, tmp: str) -> None:
                       "the LAST section matching pkg.sub.w says ignore_errors=True (documented: later unstructured section overrides earlier) "
                       "but the error is reported, because per_module_options['pkg.*.w'] keeps its first position in the dict",
                       {"kind": "dup_pattern_e2e", "output": out})
+    root = os.path.join(tmp, "finding4")
+    make_tree(root, "x: int = ''\n", inline="ignore-errors, Ignore-Errors")
+    out = run_mypy(root, ["--config-file="])
+    if "INTERNAL ERROR" in out:
+        ctx.violation("inline-duplicate-option-differing-in-case-crashes",
+                      "a file starting with `# mypy: ignore-errors, Ignore-Errors` makes mypy report INTERNAL ERROR (DuplicateOptionError from configparser "
+                      "inside parse_mypy_comments is not caught)", {"kind": "inline_crash_e2e", "output": out[-600:]})
     root = os.path.join(tmp, "finding2")
     make_tree(root, "x: int = ''\n")
     with open(os.path.join(root, "w.py"), "w") as f:
@@ -800,6 +1035,8 @@ def run(ctx: vlib.Ctx) -> None:
         ctx.log("C1 resolution done")
         sources_stage(ctx, live, tmp)
         ctx.log("C4 sources done")
+        values_stage(ctx, tmp)
+        ctx.log("C5 values / strict / inline done")
         if os.environ.get("C17_SKIP_S") == "1":      # development knob only (mutation experiments); never set by bin/check
             ctx.log("S diagnostics SKIPPED (C17_SKIP_S=1)")
         else:
@@ -824,6 +1061,14 @@ def replay(ctx: vlib.Ctx, path: str) -> None:
             i = mods.index(r["module"])
             print("clone_for_module now gives (x,y,enabled,disabled):", real[4 * i:4 * i + 4], "documented for field", r.get("field", 0), ":", r["documented"])
             if real[4 * i + r.get("field", 0)] != r["documented"]:
+                ctx.violation(d["key"], d["what"], r)
+        elif kind == "inline_crash":
+            from mypy import config_parser as CP
+            from mypy.options import Options
+            try:
+                CP.parse_mypy_comments([(1, r["line"])], Options())
+                print("parse_mypy_comments no longer raises")
+            except Exception as ex:  # noqa
                 ctx.violation(d["key"], d["what"], r)
         elif kind.endswith("_e2e") or kind in ("leading_star", "bare_star"):
             TYPESHED[:] = [make_typeshed(tmp)]
